@@ -1,4 +1,6 @@
 import DimodModel.Fix
+import DimodModel.PyHist
+import DimodModel.PolyH
 import DimodModel.EnergyVars
 import DimodModel.Wire
 open Wire En
@@ -189,6 +191,11 @@ def showLBqm (m : LBqm Rat) : String :=
     s!"{a}~{b}={showRat t.2.2}").mergeSort (· ≤ ·)
   s!"{showVT m.vt} {showRat m.off} {if lins.isEmpty then "-" else String.intercalate "," lins} {if quads.isEmpty then "-" else String.intercalate "," quads}"
 
+/-- raw insertion order of the dict of dicts: `u>v,v,…;u>…` -/
+def showOrder (m : LBqm Rat) : String :=
+  if m.adj.isEmpty then "-" else
+  String.intercalate ";" (m.rawOrder.map fun p => s!"{showLabel p.1}>{String.intercalate "," (p.2.map showLabel)}")
+
 def lbFin (_d : LBqm Rat) (r : LBqm Rat × Option Err) : LBqm Rat × String :=
   match r with
   | (d', none) => (d', "ok " ++ showLBqm d')
@@ -220,12 +227,7 @@ def lbStep (d : LBqm Rat) (view : VT) (old : Bool) (op : List String) : LBqm Rat
     | some u, some v, some b =>
       if view = d.vt then
         -- `pyBQM.set_quadratic` / cyBQM: checked first, then both variables added
-        if u = v then lbExc d (.error .value) else
-        let d1 := (d.addVariable u).addVariable v
-        let nu := ((d1.adj.get? u).getD []).set v b
-        let adj := d1.adj.set u nu
-        let adj := adj.set v (((adj.get? v).getD []).set u b)
-        lbFin d ({ d1 with adj }, none)
+        lbExc d (d.setQuadratic u v b)
       else lbFin d (View.setQuadratic T view d u v b)
     | _, _, _ => bad
   | ["addvar", v, b] => match parseLabel? v, parseRat? b with
@@ -240,6 +242,9 @@ def lbStep (d : LBqm Rat) (view : VT) (old : Bool) (op : List String) : LBqm Rat
     | some vt => lbFin d (d.changeVartypeWith pyToBinary pyToSpin vt, none) | none => bad
   | ["fix", v, a] => match parseLabel? v, parseRat? a with
     | some v, some a => if view = d.vt then lbExc d (d.fixVariable v a) else bad | _, _ => bad
+  | ["relabel", o, n] => match parseLabel? o, parseLabel? n with
+    | some o, some n => if view = d.vt then lbFin d (d.relabelOne o n, none) else bad | _, _ => bad
+  | ["order"] => (d, "ok " ++ showOrder d)
   | ["getoff"] => (d, "ok " ++ showRat (View.offset T view d))
   | ["getlin", v] => match parseLabel? v with
     | some v => lbVal d (View.getLinear T view d v) | none => bad
@@ -397,6 +402,19 @@ def step (d : LBqm Rat) (line : String) : LBqm Rat × String :=
       pure s!"{showItems h} {showPairItems j} {showRat o}"
   | ["polytobinary", t] => pure1 do pure (showTerms (polyToBinary (← parseTerms t)))
   | ["polytospin", t] => pure1 do pure (showTerms (polyToSpin (← parseTerms t)))
+  | ["polytohubo", vt, t] => pure1 do
+      let r := polyToHuboOf (vt == "SPIN") (← parseTerms t)
+      pure s!"{showTerms r.1} {showRat r.2}"
+  | ["polytohising", vt, t] => pure1 do
+      let r := polyToHisingOf (vt == "BINARY") (← parseTerms t)
+      pure s!"{showTerms (r.1.map fun e => ([e.1], e.2))} {showTerms r.2.1} {showRat r.2.2}"
+  | ["polyfromhubo", t, off] => pure1 do
+      let o ← if off = "~" then some none else (parseRat? off).map some
+      pure (showTerms (polyFromHubo (← parseTerms t) o))
+  | ["polyfromhising", h, j, off] => pure1 do
+      let o ← if off = "~" then some none else (parseRat? off).map some
+      let hh ← (← parseTerms h).mapM fun tb => match tb.1 with | [v] => some (v, tb.2) | _ => none
+      pure (showTerms (polyFromHising hh (← parseTerms j) o))
   | ["polyspec", t, x] => pure1 do pure (showRat (polySpec (xOf (← parseRats x)) (← parseTerms t)))
   | ["lbnew", vt] => match vt? vt with
     | some vt => let d' : LBqm Rat := { vt, adj := [], off := 0 }; (d', "ok " ++ showLBqm d')
